@@ -191,9 +191,9 @@ Proof. apply (rebased_covariant_gen eq). Qed.
 
 (* the three origin actions of the anchored code satisfy the action law *)
 Lemma act_index_law y0 x0 y1 x1 p : act_index (y0 + y1) (x0 + x1) p = act_index y1 x1 (act_index y0 x0 p).
-Proof. destruct p as [a b]. unfold act_index. cbn [fst snd]. apply f_equal2; lia. Qed.
+Proof. destruct p as [a b]. unfold act_index. cbn [fst snd]. rewrite !Z.add_assoc. reflexivity. Qed.
 Lemma act_box_law y0 x0 y1 x1 b : act_box (y0 + y1) (x0 + x1) b = act_box y1 x1 (act_box y0 x0 b).
-Proof. destruct b as [[[a b] c] d]. unfold act_box, shift_box. repeat apply f_equal2; lia. Qed.
+Proof. destruct b as [[[a b] c] d]. unfold act_box, shift_box. rewrite !Z.add_assoc. reflexivity. Qed.
 Definition qq_eq (p q : Q * Q) : Prop := (fst p == fst q)%Q /\ (snd p == snd q)%Q.
 Lemma act_xy_law y0 x0 y1 x1 p : qq_eq (act_xy (y0 + y1) (x0 + x1) p) (act_xy y1 x1 (act_xy y0 x0 p)).
 Proof. unfold act_xy, qq_eq. cbn. rewrite !inject_Z_plus. split; ring. Qed.
@@ -257,7 +257,11 @@ Lemma overlap_slices_inside y0 y1 x0 x1 ny nx :
 Proof.
   intros Hy Hy1 Hx Hx1. unfold overlap_slices.
   destruct ((x0 >=? nx) || (y0 >=? ny) || (x1 <=? 0) || (y1 <=? 0)) eqn:E; [lia|].
-  repeat f_equal; lia.
+  replace (Z.max y0 0) with y0 by lia. replace (Z.min y1 ny) with y1 by lia.
+  replace (Z.max x0 0) with x0 by lia. replace (Z.min x1 nx) with x1 by lia.
+  replace (Z.max (- y0) 0) with 0 by lia. replace (Z.min (y1 - y0) (ny - y0)) with (y1 - y0) by lia.
+  replace (Z.max (- x0) 0) with 0 by lia. replace (Z.min (x1 - x0) (nx - x0)) with (x1 - x0) by lia.
+  reflexivity.
 Qed.
 
 Lemma overlap_slices_shift_lemma y0 y1 x0 x1 ny nx dy dx NY NX :
@@ -270,7 +274,9 @@ Lemma overlap_slices_shift_lemma y0 y1 x0 x1 ny nx dy dx NY NX :
 Proof.
   intros. exists (y0, y1), (x0, x1), ((0, y1 - y0), (0, x1 - x0)).
   split; [apply overlap_slices_inside; lia|]. split; [|auto].
-  cbn [shift_box shift_slc fst snd]. rewrite overlap_slices_inside by lia. repeat f_equal; lia.
+  cbn [shift_box shift_slc fst snd]. rewrite overlap_slices_inside by lia.
+  replace (y1 + dy - (y0 + dy)) with (y1 - y0) by lia.
+  replace (x1 + dx - (x0 + dx)) with (x1 - x0) by lia. reflexivity.
 Qed.
 
 (* transposition swaps the roles of the two axes, for every box (also one straddling the frame) *)
@@ -281,4 +287,451 @@ Proof.
   destruct b as [[[y0 y1] x0] x1]. unfold swap_box, overlap_slices.
   destruct ((x0 >=? nx) || (y0 >=? ny) || (x1 <=? 0) || (y1 <=? 0)) eqn:E1,
            ((y0 >=? ny) || (x0 >=? nx) || (y1 <=? 0) || (x1 <=? 0)) eqn:E2; try lia; reflexivity.
+Qed.
+
+(* ================================================================== *)
+(* the tight bounding box of a label                                    *)
+(* ================================================================== *)
+Definition zrow0 (NX : nat) : list Z := repeat 0 NX.
+
+Lemma has_label_repeat0 l n : l <> 0 -> has_label l (repeat 0 n) = false.
+Proof. intros Hl. unfold has_label. induction n as [|n IH]; cbn; [reflexivity|]. rewrite IH. lia. Qed.
+
+Lemma has_label_pad l dx NX r : l <> 0 -> has_label l (pad_row 0 dx NX r) = has_label l r.
+Proof.
+  intros Hl. unfold pad_row, has_label. rewrite !existsb_app.
+  fold (has_label l (repeat 0 dx)). fold (has_label l (repeat 0 (NX - dx - length r))).
+  rewrite !has_label_repeat0 by exact Hl. cbn. apply orb_false_r.
+Qed.
+
+Lemma rows_with_app l k s t :
+  rows_with l k (s ++ t) = rows_with l k s ++ rows_with l (k + Z.of_nat (length s)) t.
+Proof.
+  revert k. induction s as [|r s IH]; intros k; cbn [rows_with app length].
+  - f_equal. lia.
+  - rewrite IH. replace (k + 1 + Z.of_nat (length s)) with (k + Z.of_nat (S (length s))) by lia.
+    destruct (has_label l r); reflexivity.
+Qed.
+
+Lemma rows_with_zero_rows l k NX n : l <> 0 -> rows_with l k (repeat (repeat 0 NX) n) = [].
+Proof.
+  intros Hl. revert k. induction n as [|n IH]; intros k; cbn [repeat rows_with]; [reflexivity|].
+  rewrite has_label_repeat0 by exact Hl. apply IH.
+Qed.
+
+Lemma rows_with_pad l k dx NX s : l <> 0 -> rows_with l k (map (pad_row 0 dx NX) s) = rows_with l k s.
+Proof.
+  intros Hl. revert k. induction s as [|r s IH]; intros k; cbn [map rows_with]; [reflexivity|].
+  rewrite has_label_pad by exact Hl. rewrite IH. reflexivity.
+Qed.
+
+Lemma rows_with_offset l k d s : rows_with l (k + d) s = map (fun y => y + d) (rows_with l k s).
+Proof.
+  revert k. induction s as [|r s IH]; intros k; cbn [rows_with map]; [reflexivity|].
+  replace (k + d + 1) with (k + 1 + d) by lia. rewrite IH.
+  destruct (has_label l r); reflexivity.
+Qed.
+
+Lemma rows_with_embed l dy dx NY NX s : l <> 0 ->
+  rows_with l 0 (embed 0 dy dx NY NX s) = map (fun y => y + Z.of_nat dy) (rows_with l 0 s).
+Proof.
+  intros Hl. unfold embed. rewrite !rows_with_app, !rows_with_zero_rows by exact Hl.
+  rewrite rows_with_pad by exact Hl. rewrite app_nil_r, repeat_length. cbn [app].
+  apply rows_with_offset.
+Qed.
+
+Lemma cols_in_row_app l k r t :
+  cols_in_row l k (r ++ t) = cols_in_row l k r ++ cols_in_row l (k + Z.of_nat (length r)) t.
+Proof.
+  revert k. induction r as [|v r IH]; intros k; cbn [cols_in_row app length].
+  - f_equal. lia.
+  - rewrite IH. replace (k + 1 + Z.of_nat (length r)) with (k + Z.of_nat (S (length r))) by lia.
+    destruct (l =? v); reflexivity.
+Qed.
+
+Lemma cols_in_row_repeat0 l k n : l <> 0 -> cols_in_row l k (repeat 0 n) = [].
+Proof.
+  intros Hl. revert k. induction n as [|n IH]; intros k; cbn [repeat cols_in_row]; [reflexivity|].
+  destruct (l =? 0) eqn:E; [lia|]. apply IH.
+Qed.
+
+Lemma cols_in_row_offset l k d r : cols_in_row l (k + d) r = map (fun x => x + d) (cols_in_row l k r).
+Proof.
+  revert k. induction r as [|v r IH]; intros k; cbn [cols_in_row map]; [reflexivity|].
+  replace (k + d + 1) with (k + 1 + d) by lia. rewrite IH. destruct (l =? v); reflexivity.
+Qed.
+
+Lemma cols_in_row_pad l dx NX r : l <> 0 ->
+  cols_in_row l 0 (pad_row 0 dx NX r) = map (fun x => x + Z.of_nat dx) (cols_in_row l 0 r).
+Proof.
+  intros Hl. unfold pad_row. rewrite !cols_in_row_app, !cols_in_row_repeat0 by exact Hl.
+  rewrite app_nil_r, repeat_length. cbn [app]. apply cols_in_row_offset.
+Qed.
+
+Lemma flat_map_nil_repeat {A B} (f : A -> list B) (r : A) n : f r = [] -> flat_map f (repeat r n) = [].
+Proof. intros H. induction n as [|n IH]; cbn; [reflexivity|]. rewrite H, IH. reflexivity. Qed.
+
+Lemma cols_with_embed l dy dx NY NX s : l <> 0 ->
+  cols_with l (embed 0 dy dx NY NX s) = map (fun x => x + Z.of_nat dx) (cols_with l s).
+Proof.
+  intros Hl. unfold cols_with, embed. rewrite !flat_map_app.
+  rewrite !flat_map_nil_repeat by (apply cols_in_row_repeat0; exact Hl).
+  rewrite app_nil_r. cbn [app].
+  induction s as [|r s IH]; cbn [map flat_map]; [reflexivity|].
+  rewrite IH, cols_in_row_pad by exact Hl. rewrite map_app. reflexivity.
+Qed.
+
+Lemma zmin_offset ys y d : zmin (map (fun v => v + d) ys) (y + d) = zmin ys y + d.
+Proof. induction ys as [|a ys IH]; cbn; [reflexivity|]. unfold zmin in IH. rewrite IH. lia. Qed.
+Lemma zmax_offset ys y d : zmax (map (fun v => v + d) ys) (y + d) = zmax ys y + d.
+Proof. induction ys as [|a ys IH]; cbn; [reflexivity|]. unfold zmax in IH. rewrite IH. lia. Qed.
+
+Lemma seg_bbox_embed l dy dx NY NX s : l <> 0 ->
+  seg_bbox l (embed 0 dy dx NY NX s) = option_map (shift_box (Z.of_nat dy) (Z.of_nat dx)) (seg_bbox l s).
+Proof.
+  intros Hl. unfold seg_bbox. rewrite rows_with_embed, cols_with_embed by exact Hl.
+  destruct (rows_with l 0 s) as [|y ys]; [reflexivity|].
+  destruct (cols_with l s) as [|x xs]; [reflexivity|].
+  cbn [map option_map shift_box]. rewrite !zmin_offset, !zmax_offset.
+  replace (zmax ys y + Z.of_nat dy + 1) with (zmax ys y + 1 + Z.of_nat dy) by lia.
+  replace (zmax xs x + Z.of_nat dx + 1) with (zmax xs x + 1 + Z.of_nat dx) by lia.
+  reflexivity.
+Qed.
+
+(* the box lies inside the frame *)
+Lemma rows_with_bounds l k s y : In y (rows_with l k s) -> k <= y < k + Z.of_nat (length s).
+Proof.
+  revert k. induction s as [|r s IH]; intros k; cbn [rows_with length]; [intros []|].
+  destruct (has_label l r).
+  - intros [<-|H]; [lia|]. apply IH in H. lia.
+  - intros H. apply IH in H. lia.
+Qed.
+Lemma cols_in_row_bounds l k r x : In x (cols_in_row l k r) -> k <= x < k + Z.of_nat (length r).
+Proof.
+  revert k. induction r as [|v r IH]; intros k; cbn [cols_in_row length]; [intros []|].
+  destruct (l =? v).
+  - intros [<-|H]; [lia|]. apply IH in H. lia.
+  - intros H. apply IH in H. lia.
+Qed.
+Lemma cols_with_bounds l ny nx s x : rect ny nx s -> In x (cols_with l s) -> 0 <= x < Z.of_nat nx.
+Proof.
+  intros [_ Hr] Hin. unfold cols_with in Hin. apply in_flat_map in Hin. destruct Hin as [r [Hr1 Hx]].
+  rewrite Forall_forall in Hr. apply cols_in_row_bounds in Hx. rewrite (Hr _ Hr1) in Hx. lia.
+Qed.
+Lemma zmin_bounds ys y lo hi : (forall v, In v (y :: ys) -> lo <= v < hi) -> lo <= zmin ys y < hi.
+Proof.
+  induction ys as [|a ys IH]; intros H; cbn.
+  - apply H. now left.
+  - assert (lo <= a < hi) by (apply H; right; now left).
+    assert (lo <= zmin ys y < hi) by (apply IH; intros v [->|Hv]; apply H; [now left|right; now right]).
+    unfold zmin in *. lia.
+Qed.
+Lemma zmax_bounds ys y lo hi : (forall v, In v (y :: ys) -> lo <= v < hi) -> lo <= zmax ys y < hi.
+Proof.
+  induction ys as [|a ys IH]; intros H; cbn.
+  - apply H. now left.
+  - assert (lo <= a < hi) by (apply H; right; now left).
+    assert (lo <= zmax ys y < hi) by (apply IH; intros v [->|Hv]; apply H; [now left|right; now right]).
+    unfold zmax in *. lia.
+Qed.
+Lemma zmin_le_zmax ys y : zmin ys y <= zmax ys y.
+Proof. induction ys as [|a ys IH]; cbn; [lia|]. unfold zmin, zmax in *. lia. Qed.
+
+Lemma seg_bbox_inside l ny nx s b : rect ny nx s -> seg_bbox l s = Some b -> inside ny nx b.
+Proof.
+  intros Hr. unfold seg_bbox.
+  destruct (rows_with l 0 s) as [|y ys] eqn:Ey; [discriminate|].
+  destruct (cols_with l s) as [|x xs] eqn:Ex; [discriminate|]. intros [= <-].
+  assert (By : forall v, In v (y :: ys) -> 0 <= v < Z.of_nat ny).
+  { intros v Hv. rewrite <- Ey in Hv. apply rows_with_bounds in Hv. destruct Hr as [Hl _]. lia. }
+  assert (Bx : forall v, In v (x :: xs) -> 0 <= v < Z.of_nat nx).
+  { intros v Hv. rewrite <- Ex in Hv. eapply cols_with_bounds; eauto. }
+  pose proof (zmin_bounds ys y _ _ By). pose proof (zmax_bounds ys y _ _ By).
+  pose proof (zmin_bounds xs x _ _ Bx). pose proof (zmax_bounds xs x _ _ Bx).
+  pose proof (zmin_le_zmax ys y). pose proof (zmin_le_zmax xs x).
+  unfold inside. lia.
+Qed.
+
+(* any measurement of the segment cutout of label l, re-based with the slice origin, is
+   covariant.  The image pixels are pairs (value, label); the canvas is padded with (zv, 0). *)
+Definition labels_of {V} (a : img (V * Z)) : img Z := map (map snd) a.
+Definition seg_box {V} (l : Z) (a : img (V * Z)) : zbox := seg_bbox0 l (labels_of a).
+
+Lemma seg_box_embed {V} (zv : V) l dy dx NY NX (a : img (V * Z)) b :
+  l <> 0 -> seg_bbox l (labels_of a) = Some b ->
+  seg_box l (embed (zv, 0) dy dx NY NX a) = shift_box (Z.of_nat dy) (Z.of_nat dx) (seg_box l a).
+Proof.
+  intros Hl Hb. unfold seg_box, seg_bbox0, labels_of. rewrite embed_map. cbn [snd].
+  rewrite seg_bbox_embed by exact Hl. unfold labels_of in Hb. rewrite Hb. reflexivity.
+Qed.
+
+Lemma segment_rebased_gen {V P} (R : P -> P -> Prop) (zv : V) (act : Z -> Z -> P -> P)
+      (f : img (V * Z) -> P) l (a : img (V * Z)) b ny nx dy dx NY NX :
+  (forall y0 x0 y1 x1 p, R (act (y0 + y1) (x0 + x1) p) (act y1 x1 (act y0 x0 p))) ->
+  l <> 0 -> rect ny nx a -> seg_bbox l (labels_of a) = Some b ->
+  R (rebased act (seg_box l) f (embed (zv, 0) dy dx NY NX a))
+    (act (Z.of_nat dy) (Z.of_nat dx) (rebased act (seg_box l) f a)).
+Proof.
+  intros Hact Hl Hr Hb. apply (rebased_covariant_gen R (zv, 0) act (seg_box l) f a ny nx); auto.
+  - unfold seg_box, seg_bbox0. rewrite Hb. eapply seg_bbox_inside; [|exact Hb].
+    apply rect_map. exact Hr.
+  - eapply seg_box_embed; eauto.
+Qed.
+
+(* ================================================================== *)
+(* weighted sums                                                        *)
+(* ================================================================== *)
+Lemma rowsum_ext w w' x r : (forall k, w k = w' k) -> rowsum w x r = rowsum w' x r.
+Proof. intros H. revert x. induction r as [|d r IH]; intros x; cbn; [reflexivity|]. rewrite H, IH. reflexivity. Qed.
+Lemma rowsum_app w x r t : rowsum w x (r ++ t) = rowsum w x r + rowsum w (x + Z.of_nat (length r)) t.
+Proof.
+  revert x. induction r as [|d r IH]; intros x; cbn [rowsum app length].
+  - replace (x + Z.of_nat 0) with x by lia. lia.
+  - rewrite IH. replace (x + 1 + Z.of_nat (length r)) with (x + Z.of_nat (S (length r))) by lia. lia.
+Qed.
+Lemma rowsum_repeat0 w x n : rowsum w x (repeat 0 n) = 0.
+Proof. revert x. induction n as [|n IH]; intros x; cbn [repeat rowsum]; [reflexivity|]. rewrite IH. lia. Qed.
+Lemma rowsum_offset w x k r : rowsum w (x + k) r = rowsum (fun v => w (v + k)) x r.
+Proof.
+  revert x. induction r as [|d r IH]; intros x; cbn [rowsum]; [reflexivity|].
+  replace (x + k + 1) with (x + 1 + k) by lia. rewrite IH. reflexivity.
+Qed.
+Lemma rowsum_pad w dx NX r : rowsum w 0 (pad_row 0 dx NX r) = rowsum (fun v => w (v + Z.of_nat dx)) 0 r.
+Proof.
+  unfold pad_row. rewrite !rowsum_app, !rowsum_repeat0, repeat_length.
+  rewrite <- rowsum_offset. cbn. lia.
+Qed.
+Lemma rowsum_add w1 w2 x r : rowsum (fun k => w1 k + w2 k) x r = rowsum w1 x r + rowsum w2 x r.
+Proof. revert x. induction r as [|d r IH]; intros x; cbn [rowsum]; [reflexivity|]. rewrite IH. lia. Qed.
+Lemma rowsum_scale c w x r : rowsum (fun k => c * w k) x r = c * rowsum w x r.
+Proof. revert x. induction r as [|d r IH]; intros x; cbn [rowsum]; [lia|]. rewrite IH. lia. Qed.
+
+Lemma imgsum_ext w w' y a : (forall i j, w i j = w' i j) -> imgsum w y a = imgsum w' y a.
+Proof.
+  intros H. revert y. induction a as [|r a IH]; intros y; cbn [imgsum]; [reflexivity|].
+  rewrite IH. f_equal. apply rowsum_ext. intros k. apply H.
+Qed.
+Lemma imgsum_app w y a t : imgsum w y (a ++ t) = imgsum w y a + imgsum w (y + Z.of_nat (length a)) t.
+Proof.
+  revert y. induction a as [|r a IH]; intros y; cbn [imgsum app length].
+  - replace (y + Z.of_nat 0) with y by lia. lia.
+  - rewrite IH. replace (y + 1 + Z.of_nat (length a)) with (y + Z.of_nat (S (length a))) by lia. lia.
+Qed.
+Lemma imgsum_zero_rows w y NX n : imgsum w y (repeat (repeat 0 NX) n) = 0.
+Proof.
+  revert y. induction n as [|n IH]; intros y; cbn [repeat imgsum]; [reflexivity|].
+  rewrite IH, rowsum_repeat0. lia.
+Qed.
+Lemma imgsum_offset w y k a : imgsum w (y + k) a = imgsum (fun i j => w (i + k) j) y a.
+Proof.
+  revert y. induction a as [|r a IH]; intros y; cbn [imgsum]; [reflexivity|].
+  replace (y + k + 1) with (y + 1 + k) by lia. rewrite IH. reflexivity.
+Qed.
+Lemma imgsum_pad w y dx NX a :
+  imgsum w y (map (pad_row 0 dx NX) a) = imgsum (fun i j => w i (j + Z.of_nat dx)) y a.
+Proof.
+  revert y. induction a as [|r a IH]; intros y; cbn [map imgsum]; [reflexivity|].
+  rewrite IH, rowsum_pad. reflexivity.
+Qed.
+
+Lemma wsum_ext w w' a : (forall y x, w y x = w' y x) -> wsum w a = wsum w' a.
+Proof. apply imgsum_ext. Qed.
+Lemma wsum_add w1 w2 a : wsum (fun y x => w1 y x + w2 y x) a = wsum w1 a + wsum w2 a.
+Proof.
+  unfold wsum. generalize 0 at 1 2 3. induction a as [|r a IH]; intros y; cbn [imgsum]; [reflexivity|].
+  rewrite IH, rowsum_add. lia.
+Qed.
+Lemma wsum_scale c w a : wsum (fun y x => c * w y x) a = c * wsum w a.
+Proof.
+  unfold wsum. generalize 0 at 1 2. induction a as [|r a IH]; intros y; cbn [imgsum]; [lia|].
+  rewrite IH, rowsum_scale. lia.
+Qed.
+
+(* the sum over the canvas is the sum over the image with translated weights: no hypothesis *)
+Lemma wsum_embed w dy dx NY NX a :
+  wsum w (embed 0 dy dx NY NX a) = wsum (fun y x => w (y + Z.of_nat dy) (x + Z.of_nat dx)) a.
+Proof.
+  unfold wsum, embed. rewrite !imgsum_app, !imgsum_zero_rows, repeat_length, imgsum_pad.
+  replace (0 + Z.of_nat dy) with (0 + Z.of_nat dy) by reflexivity. rewrite imgsum_offset. lia.
+Qed.
+
+(* transposition *)
+Fixpoint zsum (l : list Z) : Z := match l with [] => 0 | v :: r => v + zsum r end.
+Lemma zsum_map_add {A} (f g : A -> Z) l : zsum (map (fun i => f i + g i) l) = zsum (map f l) + zsum (map g l).
+Proof. induction l as [|a l IH]; cbn; [reflexivity|]. rewrite IH. lia. Qed.
+Lemma zsum_map_ext {A} (f g : A -> Z) l : (forall i, In i l -> f i = g i) -> zsum (map f l) = zsum (map g l).
+Proof.
+  induction l as [|a l IH]; intros H; cbn; [reflexivity|].
+  rewrite H by (now left). rewrite IH; [reflexivity|]. intros i Hi. apply H. now right.
+Qed.
+Lemma zsum_map_zero {A} (l : list A) : zsum (map (fun _ => 0) l) = 0.
+Proof. induction l; cbn; lia. Qed.
+
+Lemma imgsum_map_seq (w : Z -> Z -> Z) (g : nat -> list Z) s n :
+  imgsum w (Z.of_nat s) (map g (seq s n)) = zsum (map (fun j => rowsum (w (Z.of_nat j)) 0 (g j)) (seq s n)).
+Proof.
+  revert s. induction n as [|n IH]; intros s; cbn [seq map imgsum zsum]; [reflexivity|].
+  replace (Z.of_nat s + 1) with (Z.of_nat (S s)) by lia. rewrite IH. reflexivity.
+Qed.
+
+Lemma rowsum_as_zsum (w : Z -> Z) (r : list Z) s :
+  rowsum w (Z.of_nat s) r = zsum (map (fun j => w (Z.of_nat j) * nth (j - s) r 0) (seq s (length r))).
+Proof.
+  revert s. induction r as [|d r IH]; intros s; cbn [rowsum length seq map zsum]; [reflexivity|].
+  replace (Z.of_nat s + 1) with (Z.of_nat (S s)) by lia. rewrite IH.
+  replace (s - s)%nat with 0%nat by lia. cbn [nth]. f_equal.
+  apply zsum_map_ext. intros j Hj. apply in_seq in Hj.
+  replace (j - s)%nat with (S (j - S s)) by lia. reflexivity.
+Qed.
+
+Lemma wsum_transpose w ny nx a : rect ny nx a ->
+  wsum w (transpose 0 nx a) = wsum (fun y x => w x y) a.
+Proof.
+  revert w ny. induction a as [|r a IH]; intros w ny [Hl Hr].
+  - unfold wsum, transpose. change 0 with (Z.of_nat 0) at 1. rewrite imgsum_map_seq.
+    cbn [map rowsum imgsum]. apply zsum_map_zero.
+  - inversion Hr as [|? ? Hr1 Hr2]; subst.
+    assert (Hra : rect (length a) (length r) a) by (split; [reflexivity|exact Hr2]).
+    unfold wsum. cbn [imgsum]. unfold transpose.
+    change 0 with (Z.of_nat 0) at 1. rewrite imgsum_map_seq. cbn [map rowsum].
+    rewrite zsum_map_add. f_equal.
+    + change 0 with (Z.of_nat 0) at 3. rewrite rowsum_as_zsum. apply zsum_map_ext.
+      intros j Hj. replace (j - 0)%nat with j by lia. reflexivity.
+    + specialize (IH (fun y x => w y (x + 1)) (length a) Hra). unfold wsum, transpose in IH.
+      change 0 with (Z.of_nat 0) in IH at 1. rewrite imgsum_map_seq in IH.
+      rewrite (imgsum_offset _ 0 1). cbn [Z.add] in *.
+      etransitivity; [|exact IH]. apply zsum_map_ext. intros j Hj.
+      change 1 with (0 + 1) at 1. rewrite rowsum_offset. reflexivity.
+Qed.
+
+(* ================================================================== *)
+(* moments                                                              *)
+(* ================================================================== *)
+Lemma moment_transpose_lemma i j ny nx a : rect ny nx a -> moment i j (transpose 0 nx a) = moment j i a.
+Proof.
+  intros Hr. unfold moment. rewrite (wsum_transpose _ ny nx a Hr). apply wsum_ext. intros y x. lia.
+Qed.
+
+Lemma M00_embed dy dx NY NX a : M00 (embed 0 dy dx NY NX a) = M00 a.
+Proof. unfold M00, moment. rewrite wsum_embed. apply wsum_ext. intros; reflexivity. Qed.
+
+Lemma M10_embed dy dx NY NX a : M10 (embed 0 dy dx NY NX a) = M10 a + Z.of_nat dx * M00 a.
+Proof.
+  unfold M10, M00, moment. rewrite wsum_embed. rewrite <- wsum_scale, <- wsum_add.
+  apply wsum_ext. intros y x. cbn [Z.of_nat]. rewrite !Z.pow_0_r, !Z.pow_1_r. lia.
+Qed.
+Lemma M01_embed dy dx NY NX a : M01 (embed 0 dy dx NY NX a) = M01 a + Z.of_nat dy * M00 a.
+Proof.
+  unfold M01, M00, moment. rewrite wsum_embed. rewrite <- wsum_scale, <- wsum_add.
+  apply wsum_ext. intros y x. cbn [Z.of_nat]. rewrite !Z.pow_0_r, !Z.pow_1_r. lia.
+Qed.
+
+(* central moments of EVERY order are unchanged by the embedding *)
+Lemma cmoment_embed i j dy dx NY NX a : cmoment i j (embed 0 dy dx NY NX a) = cmoment i j a.
+Proof.
+  unfold cmoment. rewrite wsum_embed, M00_embed, M10_embed, M01_embed.
+  apply wsum_ext. intros y x. f_equal; f_equal; ring.
+Qed.
+
+Lemma cmoment_transpose i j ny nx a : rect ny nx a -> cmoment i j (transpose 0 nx a) = cmoment j i a.
+Proof.
+  intros Hr. unfold cmoment, M00, M10, M01.
+  rewrite !(moment_transpose_lemma _ _ ny nx a Hr), (wsum_transpose _ ny nx a Hr).
+  apply wsum_ext. intros y x. ring.
+Qed.
+
+Lemma centroid_embed dy dx NY NX a : M00 a <> 0 ->
+  (centroid_x (embed 0 dy dx NY NX a) == centroid_x a + inject_Z (Z.of_nat dx))%Q /\
+  (centroid_y (embed 0 dy dx NY NX a) == centroid_y a + inject_Z (Z.of_nat dy))%Q.
+Proof.
+  intros H0. unfold centroid_x, centroid_y, qdiv. rewrite M00_embed, M10_embed, M01_embed.
+  assert (Hq : ~ (inject_Z (M00 a) == 0)%Q).
+  { intros E. apply H0. unfold Qeq in E. cbn in E. lia. }
+  rewrite !inject_Z_plus, !inject_Z_mult. split; field; exact Hq.
+Qed.
+
+Lemma centroid_transpose ny nx a : rect ny nx a ->
+  centroid_x (transpose 0 nx a) = centroid_y a /\ centroid_y (transpose 0 nx a) = centroid_x a.
+Proof.
+  intros Hr. unfold centroid_x, centroid_y, M00, M10, M01.
+  rewrite !(moment_transpose_lemma _ _ ny nx a Hr). split; reflexivity.
+Qed.
+
+Lemma cov_embed dy dx NY NX a :
+  cov_xx (embed 0 dy dx NY NX a) = cov_xx a /\ cov_xy (embed 0 dy dx NY NX a) = cov_xy a /\
+  cov_yy (embed 0 dy dx NY NX a) = cov_yy a.
+Proof. unfold cov_xx, cov_xy, cov_yy. rewrite !cmoment_embed, M00_embed. auto. Qed.
+
+Lemma cov_transpose ny nx a : rect ny nx a ->
+  cov_xx (transpose 0 nx a) = cov_yy a /\ cov_xy (transpose 0 nx a) = cov_xy a /\
+  cov_yy (transpose 0 nx a) = cov_xx a.
+Proof.
+  intros Hr. unfold cov_xx, cov_xy, cov_yy, M00.
+  rewrite !(cmoment_transpose _ _ ny nx a Hr), (moment_transpose_lemma _ _ ny nx a Hr). auto.
+Qed.
+
+(* SourceCatalog.centroid of a segment cutout inside the frame *)
+Lemma catalog_centroid_embed dy dx NY NX ny nx a b :
+  rect ny nx a -> inside ny nx b ->
+  qq_eq (catalog_centroid (shift_box (Z.of_nat dy) (Z.of_nat dx) b) (embed 0 dy dx NY NX a))
+        (act_xy (Z.of_nat dy) (Z.of_nat dx) (catalog_centroid b a)).
+Proof.
+  intros Hr Hin. unfold catalog_centroid. rewrite (cropz_embed 0 dy dx NY NX ny nx a b Hr Hin).
+  destruct b as [[[y0 y1] x0] x1]. cbn [shift_box]. apply act_xy_law.
+Qed.
+
+(* ================================================================== *)
+(* foreground map of detect_sources                                     *)
+(* ================================================================== *)
+Lemma map3_app {A B C D} (f : A -> B -> C -> D) a a' b b' c c' :
+  length a = length b -> length a = length c ->
+  map3 f (a ++ a') (b ++ b') (c ++ c') = map3 f a b c ++ map3 f a' b' c'.
+Proof.
+  revert b c. induction a as [|x a IH]; intros [|y b] [|z c]; cbn; try discriminate; intros H1 H2.
+  - reflexivity.
+  - f_equal. apply IH; lia.
+Qed.
+Lemma map3_repeat {A B C D} (f : A -> B -> C -> D) x y z n :
+  map3 f (repeat x n) (repeat y n) (repeat z n) = repeat (f x y z) n.
+Proof. induction n; cbn; congruence. Qed.
+
+Lemma fg_row_pad zd zt zm dx NX rd rt rm :
+  fg_px zd zt zm = false -> length rd = length rt -> length rd = length rm ->
+  map3 fg_px (pad_row zd dx NX rd) (pad_row zt dx NX rt) (pad_row zm dx NX rm) =
+  pad_row false dx NX (map3 fg_px rd rt rm).
+Proof.
+  intros Hz H1 H2. unfold pad_row.
+  assert (Hl : length (map3 fg_px rd rt rm) = length rd).
+  { clear Hz. revert rt rm H1 H2. induction rd as [|x rd IH]; intros [|y rt] [|z rm]; cbn; try discriminate; auto. }
+  rewrite map3_app by (rewrite !repeat_length; reflexivity).
+  rewrite map3_app by assumption. rewrite <- H1, <- H2, Hl, !map3_repeat, Hz. reflexivity.
+Qed.
+
+Lemma fg_img_length data thr mask ny nx :
+  rect ny nx data -> rect ny nx thr -> rect ny nx mask -> length (fg_img data thr mask) = ny.
+Proof.
+  intros [H1 _] [H2 _] [H3 _]. unfold fg_img. subst ny. revert thr mask H2 H3.
+  induction data as [|x d IH]; intros [|y t] [|z m]; cbn; try discriminate; auto.
+Qed.
+
+(* padding that is not above its threshold (or is masked) stays background: the foreground map
+   of the canvas is the embedded foreground map *)
+Lemma fg_img_embed zd zt zm dy dx NY NX ny nx data thr mask :
+  fg_px zd zt zm = false ->
+  rect ny nx data -> rect ny nx thr -> rect ny nx mask ->
+  fg_img (embed zd dy dx NY NX data) (embed zt dy dx NY NX thr) (embed zm dy dx NY NX mask) =
+  embed false dy dx NY NX (fg_img data thr mask).
+Proof.
+  intros Hz Hd Ht Hm. pose proof (fg_img_length _ _ _ _ _ Hd Ht Hm) as Hlen.
+  destruct Hd as [Hd1 Hd2], Ht as [Ht1 Ht2], Hm as [Hm1 Hm2].
+  unfold fg_img, embed.
+  rewrite map3_app by (rewrite !repeat_length; reflexivity).
+  rewrite map3_app by (rewrite !map_length; lia).
+  rewrite !map3_repeat, Hz.
+  unfold fg_img in Hlen. rewrite Hlen, Hd1, Ht1, Hm1, !map3_repeat, !map3_repeat, Hz.
+  f_equal. f_equal.
+  clear Hlen. subst ny. revert thr mask Ht1 Hm1 Ht2 Hm2.
+  induction Hd2 as [|rd data Hrd Hd2 IH]; intros [|rt thr] [|rm mask]; cbn [length map map3]; try discriminate; auto.
+  intros Ht1 Hm1 Ht2 Hm2. inversion Ht2; subst. inversion Hm2; subst.
+  rewrite fg_row_pad by (assumption || congruence). f_equal. apply IH; auto.
 Qed.
